@@ -308,3 +308,9 @@ Print Assumptions C04_acquire_loop_step.
 Theorem C04_escalate_is_source : esc_table_ok = true.
 Proof. exact escalate_is_source. Qed.
 Print Assumptions C04_escalate_is_source.
+
+(* buildPrivGraph / buildJoinedPromptPattern / UpdatePrivileges as translated: the graph the path search walks and the patterns the current level is determined with: every level's pattern compiled from its CURRENT text on every UpdatePrivileges, an edge to the previous level exactly when one is named, every edge mirrored; the joined prompt pattern from the same texts *)
+From Scrapli Require Import PrivGraphSrc.
+Theorem C04_priv_graph_is_source : priv_graph_src_ok = true.
+Proof. exact priv_graph_is_source. Qed.
+Print Assumptions C04_priv_graph_is_source.
